@@ -8,7 +8,7 @@
 // Second part: after every sequence of up to 4 state-changing requests over {open, open with sync, close, set_sync(true), set_sync(false)} (781
 // sequences) each gated request kind {insert_local, delete_prefix, get_exact, get_many, get_sync_peers, export_secret_key, subscribe, get_state: usable iff
 // handles > 0; insert_remote, sync_initial_message, sync_process_message: iff handles > 0 and sync enabled} is probed once against the model.
-// Third part: shutdown while a get_many reply stream is open and unread returns the store within 8 s, and a later request gets an error.
+// Third part: shutdown while a get_many reply stream is open and unread returns the store within 40 s, and a later request gets an error.
 #[cfg(test)]
 mod verif_rp_c14_actor {
     use super::*;
@@ -191,12 +191,12 @@ mod verif_rp_c14_actor {
         let (tx, slow_consumer) = mpsc::channel(1);
         handle.get_many(id, crate::store::Query::all().into(), tx).await.unwrap();
         let stopper = { let h = handle.clone(); tokio::task::spawn(async move { h.shutdown().await }) };
-        let stopped = tokio::time::timeout(std::time::Duration::from_secs(8), stopper).await;
-        let late = tokio::time::timeout(std::time::Duration::from_secs(8), handle.get_state(id)).await;
+        let stopped = tokio::time::timeout(std::time::Duration::from_secs(40), stopper).await;
+        let late = tokio::time::timeout(std::time::Duration::from_secs(40), handle.get_state(id)).await;
         drop(slow_consumer);
         assert!(late.is_ok(), "WITNESS a request sent after shutdown (while a get_many reply stream is open and unread) is never answered");
         assert!(late.unwrap().is_err(), "WITNESS a request sent after shutdown was answered with success");
-        let stopped = stopped.expect("WITNESS shutdown does not return within 8 s while a get_many reply stream is open and unread");
+        let stopped = stopped.expect("WITNESS shutdown does not return within 40 s while a get_many reply stream is open and unread");
         let mut store = stopped.unwrap().unwrap();
         let held = store.get_many(id, crate::store::Query::all()).unwrap().count();
         assert_eq!(held, 100, "WITNESS store handed back by shutdown holds {held} of 100 acknowledged writes");
